@@ -134,3 +134,40 @@ func ZvC01_CacheClock() {
 	vrt.ConcCheck("C01", "CacheClock", zvMkCache(exp, d, stored, vals), prog, nil, true, false, zvCFollow)
 }
 func ZvC02_Cache() { zvCRun("C02", zvCSingle, false, true) }
+
+// ZvC02_CacheExpired: the same single-element operations on a key whose entry is EXPIRED BUT NOT
+// YET PURGED (present in the map, past its deadline): Set must treat it as absent and be granted to
+// exactly one of two racing callers. Timing is made irrelevant for the comparison with the
+// sequential runs by assuming that every clock read of the program lies after the deadline (the
+// clock is non-decreasing, so one assumption on the first read after the setup suffices) and by
+// letting the program itself store without expiry.
+func ZvC02_CacheExpired() {
+	vrt.ConcSelectors = 1
+	vrt.MapOrderMode(2)
+	d := time.Duration(vrt.Int())
+	vrt.Assume(vrt.And(d > 0, d < 1<<58))
+	v0 := vrt.Int()
+	var afterSet []int64
+	mk := func() vrt.ConcInst {
+		c := New[string, int](NoExpiration, 0)
+		c.Set("a", v0, d)
+		afterSet = append(afterSet, vrt.NowNano()) // >= the instant the deadline was computed from
+		return zvC{c, NoExpiration}
+	}
+	first := mk()
+	start := vrt.NowNano()
+	vrt.Assume(start > afterSet[0]+int64(d)) // from here on the entry is past its deadline
+	n := 0
+	mk2 := func() vrt.ConcInst {
+		if n == 0 {
+			n++
+			return first
+		}
+		n++
+		q := mk()
+		vrt.Assume(vrt.NowNano() > afterSet[len(afterSet)-1]+int64(d))
+		return q
+	}
+	prog := vrt.ConcProgram(0, zvCSingle)
+	vrt.ConcCheck("C02", "CacheExpired", mk2, prog, nil, false, true, nil)
+}
